@@ -153,6 +153,38 @@ def open_account(holder: str) -> int:
 	account = Account(holder, 3)
 	return account.total()
 '''
+P_TEXT = '''class Cursor:
+	pos: int
+
+	def __init__(self, pos: int) -> None:
+		self.pos = pos
+		self.setup(2)
+
+	def setup(self, step: int) -> None:
+		self.pos = self.pos + step
+
+	def advance(self) -> 'Cursor':
+		return Cursor(self.pos + 1)
+
+class Entry:
+	score: int
+	weight: int
+
+	def __init__(self, score: int) -> None:
+		self.score = score
+		self.weight = score * 2
+
+def weigh_entry(entry: Entry) -> int:
+	return entry.weight
+
+def ranked(count: int) -> int:
+	entries = [Entry(count), Entry(2)]
+	entries.sort(key=lambda elem: elem.score)
+	others = [Entry(1)]
+	others.sort(key=lambda each: weigh_entry(each))
+	cursor = Cursor(count).advance()
+	return entries[0].score + others[0].score + cursor.pos
+'''
 P_CLASSES_CFG = P_CLASSES + '''
 def weigh(box: Box, twin: Twin, shape: Shape) -> int:
 	return box.depth + twin.count + shape.count
@@ -164,6 +196,7 @@ PROGRAMS = {
     'classes': {'prog_classes': P_CLASSES},
     'classes@immutable:Shape': {'prog_classes_cfg': P_CLASSES_CFG},
     'access': {'prog_access': P_ACCESS},
+    'text': {'prog_text': P_TEXT},
     'modules': {'mod_a': P_MOD_A, 'mod_b': P_MOD_B},
 }
 
@@ -171,7 +204,9 @@ RESERVED = {'self', 'cls', '__init__', 'Enum', 'Callable', 'int', 'str', 'bool',
             'property', 'classmethod', 'items', 'value', 'name', 'append', 'None', 'True', 'False', 'enum', 'collections', 'abc'}
 
 FRESH_Q = ['zq', 'zq_', 'zq__w', 'selfish', 'self_', 'cls2', 'Enum2', 'super_', 'rangex', 'var', 'name', 'block', 'assign', 'class_def', 'function_def_raw', 'if_12', 'x_0',
-           'a' * 40, 'Zq', 'z']
+           'a' * 40, 'Zq', 'z',
+           # spellings that start or end like something the templates / the transpiler look for by text
+           'IteratorState', 'ItemsViewModel', 'constant', 'post__init__', 'Embedded', 'std_x', 'CP_x', 'list_x', 'Callable2', 'Union_x', 'e', 'a']
 FRESH_PAIRS = [('zq', 'zqq'), ('zq', 'zq_'), ('zqa', 'zq'), ('w__zq', 'zq'), ('selfish', 'self_'), ('var', 'var_'), ('name', 'names'), ('z', 'zz')]
 
 
